@@ -55,10 +55,10 @@ class RunRepo:
     def clear_traces(self):
         shutil.rmtree(os.path.join(self.hd, "trace"), ignore_errors=True)
         shutil.rmtree(os.path.join(self.hd, "barrier"), ignore_errors=True)
-    def run(self, *args, env=None, timeout=120):
+    def run(self, *args, env=None, timeout=120, prefix=()):
         self.run_no += 1
         self.clear_traces()
-        return vlib.monorail(self.repo, "run", *args, env=self.env(env), timeout=timeout)
+        return vlib.monorail(self.repo, "run", *args, env=self.env(env), timeout=timeout, prefix=prefix)
     def traces(self):
         d = os.path.join(self.hd, "trace")
         recs = {}
